@@ -1,0 +1,18 @@
+//go:build verif
+
+package cipher
+
+import "crypto/cipher"
+
+// Verification hooks (build tag verif only): export the unexported packet CFB routines so
+// that a toy cipher.Block can be driven through the hand-unrolled code paths.
+
+// VerifEncrypt calls encrypt(block, iv, dst, src, buf).
+func VerifEncrypt(block cipher.Block, iv, dst, src, buf []byte) {
+	encrypt(block, iv, dst, src, buf)
+}
+
+// VerifDecrypt calls decrypt(block, iv, dst, src, buf).
+func VerifDecrypt(block cipher.Block, iv, dst, src, buf []byte) {
+	decrypt(block, iv, dst, src, buf)
+}
